@@ -199,6 +199,36 @@ func c30Ambiguous(d c30Desc) bool {
 	return false
 }
 
+// c30AmbiguousExt: the MediaEngine keeps negotiated header extensions in Go maps; when one extmap id names two
+// URIs or one URI has two ids, which one it answers with depends on map iteration order (outside C30's subject).
+func c30AmbiguousExt(d c30Desc) bool {
+	type ent struct{ id, uri string }
+	es := []ent{}
+	for _, m := range d.medias {
+		for _, a := range m.attrs {
+			if a.k != "extmap" {
+				continue
+			}
+			f := strings.Split(a.v, " ")
+			id, _, _ := strings.Cut(f[0], "/")
+			uri := ""
+			if len(f) > 1 {
+				uri = f[1]
+			}
+			es = append(es, ent{id, uri})
+		}
+	}
+	for _, p := range es {
+		for _, q := range es {
+			if (p.id == q.id) != (p.uri == q.uri) {
+				return true
+			}
+		}
+	}
+
+	return false
+}
+
 func c30OptSSRC(p *webrtc.SSRC) string {
 	if p == nil {
 		return "-"
@@ -445,6 +475,46 @@ func c30ExecHelper(a []string) string { //nolint:gocyclo,cyclop,maintidx
 		}
 
 		return strings.Join(out, " ")
+	case "uin":
+		// uin <isAnswer> <withoutAnswer> <midOK> <ridOK> <ptKnown> <audioOK> <videoOK> <ssrc> <pktHex|->
+		if len(params) != 9 {
+			return "bad-op"
+		}
+		if c30Ambiguous(d) || c30AmbiguousExt(d) {
+			return "ambiguous"
+		}
+		mode := 0
+		if params[1] == "1" {
+			mode = c30ModeUndeclNA
+		}
+		pc, err := c30NewPC(0, mode)
+		if err != nil {
+			return "bad-op newpc"
+		}
+		defer pc.Close() //nolint:errcheck
+		typ := webrtc.SDPTypeOffer
+		if params[0] == "1" {
+			typ = webrtc.SDPTypeAnswer
+		}
+		ssrc, err := strconv.ParseUint(params[7], 10, 32)
+		if err != nil {
+			return "bad-op"
+		}
+		class := webrtc.VerifHandleIncomingSSRC(pc, typ, s, webrtc.SSRC(ssrc), unhx(params[8]))
+		if class != "nil" {
+			return class
+		}
+		trs := pc.GetTransceivers()
+		if len(trs) == 0 {
+			return "declared"
+		}
+		tr := trs[len(trs)-1]
+		id, sid := "", ""
+		if t := tr.Receiver().Track(); t != nil {
+			id, sid = t.ID(), t.StreamID()
+		}
+
+		return fmt.Sprintf("add %d %s %s", int(tr.Kind()), hs(sid), hs(id))
 	case "pt":
 		if len(params) != 1 {
 			return "bad-op"
@@ -463,6 +533,39 @@ func c30ExecHelper(a []string) string { //nolint:gocyclo,cyclop,maintidx
 	}
 
 	return "bad-op"
+}
+
+// c30DeclaredSSRCs: the numbers a description's a=ssrc / a=ssrc-group lines mention.
+func c30DeclaredSSRCs(d c30Desc) []uint32 {
+	out := []uint32{}
+	for _, m := range d.medias {
+		for _, a := range m.attrs {
+			if a.k != "ssrc" && a.k != "ssrc-group" {
+				continue
+			}
+			for _, f := range strings.Split(a.v, " ") {
+				if v, err := strconv.ParseUint(f, 10, 32); err == nil {
+					out = append(out, uint32(v))
+				}
+			}
+		}
+	}
+
+	return out
+}
+
+// c30FormatPTs: the payload types listed on the m= lines.
+func c30FormatPTs(d c30Desc) []byte {
+	out := []byte{}
+	for _, m := range d.medias {
+		for _, f := range m.formats {
+			if v, err := strconv.ParseUint(f, 10, 7); err == nil {
+				out = append(out, byte(v))
+			}
+		}
+	}
+
+	return out
 }
 
 // c30KnownPTs: the payload types the default media engine knows (probed through the hook).
@@ -529,10 +632,50 @@ func c30GenHelpers(c *Ctx, bases []c30Base) {
 			c.Emit("h codecs %d %d %s %s", mi, n, strings.Join(tbl, " "), enc)
 		}
 		c.Emit("h pt %d %s", []int{96, 111, 0, 97, 120, 255, 8}[r.Intn(7)], enc)
+		c.Emit("h undecl %s", enc)
 		if !light {
 			c.Emit("h rtpr %d %d %s", r.Intn(2), r.Intn(2), enc)
 			c.Emit("h rtpr 1 1 %s", enc)
-			c.Emit("h undecl %s", enc)
+		}
+		// handleIncomingSSRC on this description: a declared or an unknown SSRC, with or without a packet
+		nuin := 1
+		if !light {
+			nuin = 2
+		}
+		for k := 0; k < nuin; k++ {
+			ssrc := uint32(424242)
+			if decl := c30DeclaredSSRCs(d); len(decl) > 0 && r.Intn(3) == 0 {
+				ssrc = decl[r.Intn(len(decl))]
+			}
+			isAnswer, withoutAnswer := r.Intn(4) == 0, r.Intn(4) == 0
+			pkt := []byte{}
+			if r.Intn(6) != 0 {
+				pts := []byte{96, 111, 97, 0, 45, 102, 120, 109}
+				if fs := c30FormatPTs(d); len(fs) > 0 && r.Intn(3) != 0 {
+					pts = fs
+				}
+				pkt = []byte{0x80, pts[r.Intn(len(pts))], 0, byte(1 + k), 0, 0, 0, 1, byte(ssrc >> 24), byte(ssrc >> 16), byte(ssrc >> 8), byte(ssrc), 1, 2, 3, 4}
+			}
+			mode := 0
+			if withoutAnswer {
+				mode = c30ModeUndeclNA
+			}
+			typ := webrtc.SDPTypeOffer
+			if isAnswer {
+				typ = webrtc.SDPTypeAnswer
+			}
+			pt := byte(0)
+			if len(pkt) > 1 {
+				pt = pkt[1] & 0x7f
+			}
+			pc, err := c30NewPC(0, mode)
+			if err != nil {
+				continue
+			}
+			o := webrtc.VerifIncomingSSRCOracle(pc, typ, d.toSDP(), webrtc.PayloadType(pt))
+			_ = pc.Close()
+			c.Emit("h uin %s %s %s %s %s %s %s %d %s %s", b2s(isAnswer), b2s(withoutAnswer), b2s(o.MidOK), b2s(o.RidOK),
+				b2s(o.KnownPT), b2s(o.AudioCodecs), b2s(o.VideoOK), ssrc, hx(pkt), enc)
 		}
 	}
 	// the bases themselves
@@ -542,7 +685,7 @@ func c30GenHelpers(c *Ctx, bases []c30Base) {
 			emitAll(c30FromSDP(d), false)
 		}
 	}
-	n := c.N(260, 2500)
+	n := c.N(260, 1800)
 	for i := 0; i < n; i++ {
 		b := bases[r.Intn(len(bases))]
 		text, _ := c30Mutate(r, b.sdp, 1+r.Intn(5))
